@@ -66,8 +66,8 @@ func NewTable(file storage.File) *Table {
 }
 
 type TableDocument struct {
-	StartKey    string
-	EndKey      string
+	StartKey    []byte // Keys are arbitrary bytes; a JSON string would mangle invalid UTF-8
+	EndKey      []byte
 	Size        uint64
 	EntriesSize uint64
 	URI         string
@@ -85,8 +85,8 @@ func NewTableFromDocument(fs storage.FileSystem, dataOwnership kv.DataOwnership,
 		file:        fs.Open(doc.URI),
 		size:        int64(doc.Size),
 		entriesSize: int64(doc.EntriesSize),
-		startKey:    []byte(doc.StartKey),
-		endKey:      []byte(doc.EndKey),
+		startKey:    doc.StartKey,
+		endKey:      doc.EndKey,
 		startSeqNum: doc.StartSeqNum,
 		endSeqNum:   doc.EndSeqNum,
 	}
@@ -101,8 +101,8 @@ func NewTableFromDocument(fs storage.FileSystem, dataOwnership kv.DataOwnership,
 	params := CleanupParams{
 		deleteFunc:    t.file.CreateDeleteFunc(),
 		dataOwnership: dataOwnership,
-		startKey:      []byte(doc.StartKey),
-		endKey:        []byte(doc.EndKey),
+		startKey:      doc.StartKey,
+		endKey:        doc.EndKey,
 		uri:           doc.URI,
 	}
 
@@ -351,8 +351,8 @@ func (t *Table) ensureMetadataLoaded() {
 
 func (t *Table) Document() TableDocument {
 	return TableDocument{
-		StartKey:    string(t.startKey),
-		EndKey:      string(t.endKey),
+		StartKey:    t.startKey,
+		EndKey:      t.endKey,
 		Size:        uint64(t.size),
 		EntriesSize: uint64(t.entriesSize),
 		URI:         t.file.URI(),
